@@ -334,4 +334,72 @@ theorem Lines.ne_nil {ls : List Line} (h : Lines ls) : ∀ l ∈ ls, l ≠ [] :=
       · simp
       · exact ih hrest x hx
 
+/-! ### small generic helpers used by Props/C19 -/
+
+theorem div_eq_iff_block (a v B : Nat) (hB : 0 < B) : a / B = v / B ↔ v / B * B ≤ a ∧ a ≤ v / B * B + (B - 1) := by
+  constructor
+  · intro h
+    have h1 := Nat.div_add_mod a B
+    have h2 := Nat.mod_lt a hB
+    rw [← h]
+    rw [Nat.mul_comm] 
+    omega
+  · intro ⟨h1, h2⟩
+    apply Nat.div_eq_of_lt_le
+    · exact h1
+    · rw [Nat.add_mul]; omega
+
+theorem all2_and {α β : Type} {P : α → β → Prop} {Q : (Nat × Nat) → β → Prop} {f : α → (Nat × Nat)} {xs : List α} {ys : List β}
+    (h1 : All2 P xs ys) (h2 : All2 Q (xs.map f) ys) : All2 (fun x y => P x y ∧ Q (f x) y) xs ys := by
+  induction h1 with
+  | nil => exact All2.nil
+  | cons hp _ ih =>
+    cases h2 with
+    | cons hq h2' => exact All2.cons ⟨hp, hq⟩ (ih h2')
+
+theorem mapM_ok {α β : Type} (f : α → R β) : ∀ (l : List α) (rs : List β), l.mapM f = .ok rs →
+    All2 (fun x r => f x = .ok r) l rs := by
+  intro l
+  induction l with
+  | nil => intro rs h; simp only [List.mapM_nil, pure, Except.pure] at h; injection h with h; subst h; exact All2.nil
+  | cons a l ih =>
+    intro rs h
+    rw [List.mapM_cons] at h
+    cases ha : f a with
+    | error e => rw [ha] at h; simp [bind, Except.bind] at h
+    | ok b =>
+      rw [ha] at h
+      cases hl : l.mapM f with
+      | error e => rw [hl] at h; simp [bind, Except.bind] at h
+      | ok bs =>
+        rw [hl] at h
+        simp only [bind, Except.bind, pure, Except.pure] at h
+        injection h with h; subst h
+        exact All2.cons ha (ih bs hl)
+
+theorem mapM_err {α β : Type} (f : α → R β) (e : Err) : ∀ (l : List α), l.mapM f = .error e →
+    ∃ x ∈ l, f x = .error e := by
+  intro l
+  induction l with
+  | nil => intro h; simp [List.mapM_nil, pure, Except.pure] at h
+  | cons a l ih =>
+    intro h
+    rw [List.mapM_cons] at h
+    cases ha : f a with
+    | error e' =>
+      rw [ha] at h; simp only [bind, Except.bind] at h; injection h with h; subst h
+      exact ⟨a, by simp, ha⟩
+    | ok b =>
+      rw [ha] at h
+      cases hl : l.mapM f with
+      | error e' =>
+        rw [hl] at h; simp only [bind, Except.bind] at h; injection h with h; subst h
+        obtain ⟨x, hx, hfx⟩ := ih hl
+        exact ⟨x, by simp [hx], hfx⟩
+      | ok bs => rw [hl] at h; simp [bind, Except.bind, pure, Except.pure] at h
+
+theorem lookupRows_nil_iff (index : List (Nat × Nat × Nat)) (v : Nat) :
+    lookupRows index v = [] ↔ ∀ r ∈ index, r.1 ≠ v := by
+  simp [lookupRows, List.filter_eq_nil_iff]
+
 end NV.Registry
